@@ -256,6 +256,39 @@ def check_rom(L, info):
     return bad
 
 
+def expected_class_start(L, info, name):
+    """the address the document requests for a class, computed from the document's rule and the member ends in the image
+    (not from the class's own start symbol): fixed_vram, fixed_symbol, or the largest VRAM end among the emitted members
+    of the classes it follows. Returns (full, prefix): `full` counts every emitted member of the followed classes, `prefix`
+    only those listed before this class's first emitted member (what a script evaluated top-down can know there);
+    None where it cannot be told"""
+    cls = {c["name"]: c for c in info["classes"]}
+    c = cls.get(name)
+    if c is None:
+        return None, None
+    if c["fixed_vram"] is not None:
+        return c["fixed_vram"], c["fixed_vram"]
+    if c["fixed_symbol"] is not None:
+        v = FIXED_SYMS.get(c["fixed_symbol"])
+        return v, v
+    em = emitted(info)
+    first = next((i for i, s in enumerate(em) if s["vram_class"] == name), None)
+    if first is None:
+        return None, None
+    full = prefix = 0
+    for f in c.get("follows") or []:
+        for i, s in enumerate(em):
+            if s["vram_class"] != f:
+                continue
+            e = sym(L, s["vram_end"])
+            if e is None:
+                return None, None
+            full = max(full, e)
+            if i < first:
+                prefix = max(prefix, e)
+    return full, prefix
+
+
 def check_vram(L, info):
     """C03: each segment starts at the requested VRAM address"""
     bad = []
@@ -297,6 +330,12 @@ def check_vram(L, info):
             exp, why = sym(L, s["follows_end_sym"]), "end of followed segment"
         elif s["vram_class"] is not None:
             exp, why = sym(L, cls[s["vram_class"]]["start"]) if s["vram_class"] in cls else None, "class start"
+            full, prefix = expected_class_start(L, info, s["vram_class"])
+            if any(degenerate(x) for x in emitted(info)):
+                exp = full = None
+            if full is not None and sec["addr"] not in (full, prefix):
+                bad.append("%s: placed at 0x%X, but its class %s is requested at 0x%X (fixed address, or largest end of the members of the classes it follows)"
+                           % (s["name"], sec["addr"], s["vram_class"], full))
         elif dot is None:
             exp, why = None, ""
         else:
@@ -505,9 +544,8 @@ def check_align(L, info, stmts):
 
 
 def check_classes(L, info):
-    """C10"""
-    bad = []
-    by = {c["name"]: c for c in info["classes"]}
+    """C10; returns (bad, kf)"""
+    bad, kf = [], []
     for c in info["classes"]:
         members = [s for s in emitted(info) if s["vram_class"] == c["name"]]
         if not members:
@@ -516,15 +554,18 @@ def check_classes(L, info):
         if None in (st, en, sz):
             bad.append("class %s: symbols missing" % c["name"])
             continue
-        if c["fixed_vram"] is not None:
-            exp = c["fixed_vram"]
-        elif c["fixed_symbol"] is not None:
-            exp = FIXED_SYMS.get(c["fixed_symbol"])
-        else:
-            ends = [sym(L, e) for e in c["follows_end_syms"]]
-            exp = max([0] + [e for e in ends if e is not None]) if None not in ends else None
-        if exp is not None and st != exp:
-            bad.append("class %s: start 0x%X, expected 0x%X" % (c["name"], st, exp))
+        # a segment without allocatable sections is dropped by ld together with its address; what the location counter and
+        # the symbols around it then hold is ld's business (DESIGN.md, interpretation notes): no address clause applies
+        murky = any(degenerate(s) for s in emitted(info))
+        full, prefix = expected_class_start(L, info, c["name"])
+        if murky:
+            full = None
+        if full is not None and st != full:
+            if st == prefix:
+                # exactly the recorded finding: a member of a followed class is listed after this class's first member
+                kf.append("KF-C10-followed-member-listed-later")
+            else:
+                bad.append("class %s: start 0x%X, expected 0x%X" % (c["name"], st, full))
         mends = [sym(L, s["vram_end"]) for s in members]
         if None not in mends and en != max(mends):
             bad.append("class %s: end 0x%X, expected the largest member end 0x%X" % (c["name"], en, max(mends)))
@@ -532,9 +573,9 @@ def check_classes(L, info):
             bad.append("class %s: size != end - start" % c["name"])
         for s in members:
             sec = sec_by_name(L, "." + s["name"])
-            if sec is not None and sec["addr"] != st:
+            if sec is not None and sec["addr"] != st and not murky:
                 bad.append("class %s: member %s starts at 0x%X, not at the class start 0x%X" % (c["name"], s["name"], sec["addr"], st))
-    return bad
+    return bad, kf
 
 
 def check_tail(L, info):
